@@ -109,3 +109,50 @@ Proof.
   split; [apply ex_small; [intros k; vm_compute; discriminate | lia]|].
   split; [reflexivity|]. split; [vm_compute; reflexivity | exact I].
 Qed.
+
+(* ------------------------------------------------------------------ the P2SH scriptSig rule is NOT implied by the verdict
+   sh(thresh(13, c:pk_h(K0), ac:pk_h(K1), ..., ac:pk_h(K12))), compressed keys, 72-byte signatures, all
+   thirteen available.  The Legacy verdict is true (redeem script 363 bytes <= 520, 91 opcodes <= 201,
+   max_script_sig_size 1404 <= 1650), the lift succeeds, the policy is true, the satisfier model returns
+   the 26 items - and the scriptSig built by witness_to_scriptsig (items ++ [redeem script]) is
+   longer than 1650 bytes, so verify_sh rejects it in EVERY environment.  This is why
+   C07_sh_invents_no_path_partial keeps the scriptSig rule as a hypothesis. *)
+Definition sx_key (k : N) : bytes := 2 :: repeat k 32.
+Definition sx_ke : keyenv := mkKeyEnv sx_key (fun k => repeat k 20) (fun ks => ks).
+Definition sx_sig : bytes := 48 :: repeat 1 71.
+Definition sx_A : assets :=
+  mkAssets (fun k => if k <? 13 then Some sx_sig else None) (fun _ => None) (fun _ => None) (fun _ => None) (fun _ => None)
+           (fun _ => false) (fun _ => false).
+Definition sx_se : senv :=
+  mkSenv false (fun _ => 34) (fun k => if k <? 13 then Some 72 else None) (fun _ _ => false) (fun _ => false) (fun _ => false).
+Definition sx_f : fill := mkFill sx_key (a_sig sx_A) (fun _ _ => None).
+Definition sx_m : ms :=
+  MThresh 13 (MCheck (MPkH 0) :: map (fun k => MAlt (MCheck (MPkH k))) [1; 2; 3; 4; 5; 6; 7; 8; 9; 10; 11; 12]).
+Definition sx_p : lpolicy := LThresh 13 (map LKey [0; 1; 2; 3; 4; 5; 6; 7; 8; 9; 10; 11; 12]).
+
+Lemma verify_sh_long e h ssig w : 1650 < blen ssig -> verify_sh e h ssig w = false.
+Proof.
+  intros H. unfold verify_sh. destruct (parse_script ssig); [|reflexivity].
+  replace (N.leb (blen ssig) 1650) with false by (symmetry; apply N.leb_gt; exact H). reflexivity.
+Qed.
+
+Lemma sx_scriptsig_rule_not_implied :
+  (exists t, type_of sx_m = ROk t /\ c_base (t_corr t) = BB) /\
+  within_resource_limits Legacy (CodecExt.is_uncompressed sx_ke) sx_m = true /\
+  lift_ctx Legacy (CodecExt.is_uncompressed sx_ke) sx_m = LOk sx_p /\ leval sx_A sx_p = true /\
+  blen (encode sx_ke sx_m) <= 520 /\
+  exists bs ss, satisfy sx_ke sx_se sx_f true true sx_m = Some bs /\
+                witness_to_scriptsig (bs ++ [encode sx_ke sx_m]) = Some ss /\
+                1650 < blen (serialize ss) /\
+                forall e h, verify_sh e h (serialize ss) [] = false.
+Proof.
+  split; [eexists; split; vm_compute; reflexivity|].
+  split; [vm_compute; reflexivity|]. split; [vm_compute; reflexivity|]. split; [vm_compute; reflexivity|].
+  split; [vm_compute; discriminate|].
+  assert (Hs : exists bs, satisfy sx_ke sx_se sx_f true true sx_m = Some bs) by (vm_compute; eexists; reflexivity).
+  destruct Hs as [bs Hs]. exists bs.
+  assert (Hw : exists ss, witness_to_scriptsig (bs ++ [encode sx_ke sx_m]) = Some ss /\ 1650 < blen (serialize ss)).
+  { vm_compute in Hs. inversion Hs; subst bs. vm_compute. eexists. split; reflexivity. }
+  destruct Hw as [ss [Hw Hlen]]. exists ss. split; [exact Hs|]. split; [exact Hw|]. split; [exact Hlen|].
+  intros e h. apply verify_sh_long. exact Hlen.
+Qed.
